@@ -29,7 +29,7 @@ def sh(cmd, cwd=None, timeout=3600, env=None):
 
 
 def main():
-    pid, out = sys.argv[1], sys.argv[2]
+    pid, out = sys.argv[1], os.path.abspath(sys.argv[2])
     name = sys.argv[3] if len(sys.argv) > 3 else pid
     meta = json.load(open(os.path.join(out, "meta.json")))
     patch = os.path.join(out, "patch.diff")
@@ -101,8 +101,9 @@ def main():
     sh(["git", "checkout", "--", "evidence/%s.json" % pid], cwd=ROOT)
     d = os.path.join(ROOT, "seeded", name)
     os.makedirs(d, exist_ok=True)
-    shutil.copyfile(patch, os.path.join(d, "patch.diff"))
-    shutil.copyfile(demo, os.path.join(d, "demo_test.go"))
+    if os.path.abspath(d) != out:
+        shutil.copyfile(patch, os.path.join(d, "patch.diff"))
+        shutil.copyfile(demo, os.path.join(d, "demo_test.go"))
     old = None
     try:
         old = json.load(open(os.path.join(d, "meta.json"))).get("verification")
